@@ -451,6 +451,14 @@ func c14R7(c *Ctx) {
 								if so.Kind == "slice" && so.X != nil && so.X.IsConstInt(int64(k+1)) && in.Mentions(func(y *Org) bool { return so.Base != nil && y.Kind == so.Base.Kind && y.String() == so.Base.String() }) {
 									overFraction = true
 								}
+								// the index-loop form: input[i] with i starting at k+1
+								if io := p.Origin(x.Index); io.Kind == "phi" && in.Mentions(func(y *Org) bool { return y.Kind == so.Kind && y.String() == so.String() }) {
+									for _, a := range io.Alts {
+										if a.IsConstInt(int64(k + 1)) {
+											overFraction = true
+										}
+									}
+								}
 							case *ssa.BinOp:
 								for _, side := range []ssa.Value{x.X, x.Y} {
 									if v, isC := constIntOf(side); isC {
